@@ -26,6 +26,21 @@ class Abort(BaseException):
   """Not an Exception: like KeyboardInterrupt, GeneratorExit, CancelledError."""
 
 
+class Frozen(Exception):
+  """Rejects attribute assignment (like a frozen dataclass exception)."""
+
+  def __setattr__(self, name, value):
+    raise AttributeError('cannot assign to field ' + repr(name))
+
+
+def gen_node(spec):
+  H.gen_step(spec, 0)
+  yield 1
+  H.gen_step(spec, 1)
+  yield 2
+  H.gen_step(spec, 2)
+
+
 H = None
 
 %s
@@ -40,6 +55,8 @@ def node_%(n)s(spec):
     if spec['raise_at'] == i:
       if spec['raise_kind'] == 1:
         raise Abort(spec['id'])
+      if spec['raise_kind'] == 2:
+        raise Frozen(spec['id'])
       raise Boom(spec['id'])
     kind = link['kind']
     if kind == 'plain':
@@ -53,7 +70,9 @@ def node_%(n)s(spec):
       try:
         fn(link['spec'])
         H.post(spec, link)
-      except (Boom, Abort):
+      except BaseException:
+        if not H.ours_now():
+          raise
         H.caught(spec, link)
     else:
       H.call_child(spec, link)
@@ -62,6 +81,8 @@ def node_%(n)s(spec):
   if spec['raise_at'] == i:
     if spec['raise_kind'] == 1:
       raise Abort(spec['id'])
+    if spec['raise_kind'] == 2:
+      raise Frozen(spec['id'])
     raise Boom(spec['id'])
   H.leave(spec)
   return spec['id']
@@ -86,7 +107,7 @@ def init_zygote(lane):
   mod = common.load_module('simuser_c16', path)
   Z['mod'] = mod
   Z['path'] = path
-  for name in ('enter', 'mid', 'leave', 'pre', 'post', 'caught', 'pick', 'call_child', 'lam_body'):
+  for name in ('enter', 'mid', 'leave', 'pre', 'post', 'caught', 'pick', 'call_child', 'lam_body', 'ours_now', 'gen_step'):
     setattr(getattr(Harness, name), 'autograph_info__', None)
   # discover injection points with a throw-away conversion in a pristine world
   feats = tuple(getattr(malt.experimental.Feature, f) for f in FEATSETS[-1])
@@ -100,9 +121,9 @@ def init_zygote(lane):
 # ---------------------------------------------------------------------------
 # plan generation (pure function of the seed)
 # ---------------------------------------------------------------------------
-LINK_KINDS_CHILD = ['plain', 'plain_try', 'convert', 'convert', 'dnc', 'unspec', 'with',
+LINK_KINDS_CHILD = ['plain', 'plain_try', 'convert', 'convert', 'dnc', 'dnc_gen', 'unspec', 'with',
                     'internal', 'internal', 'to_graph']
-LINK_KINDS_ROOT = ['convert', 'convert', 'dnc', 'unspec', 'with', 'internal', 'internal',
+LINK_KINDS_ROOT = ['convert', 'convert', 'dnc', 'dnc_gen', 'unspec', 'with', 'internal', 'internal',
                    'to_graph', 'native']
 
 
@@ -134,6 +155,12 @@ def _gen_link(rng, prefix, budget, depth, max_depth, root, n_shared):
     link['by_default'] = rng.random() < 0.6
     link['ur'] = rng.random() < 0.5
   link['spec'] = _gen_node(rng, prefix, budget, depth + 1, max_depth, n_shared)
+  if kind == 'dnc_gen':
+    # a generator function under do_not_convert, stepped `steps` times and then
+    # closed or exhausted; the spec's children run while it is suspended
+    link['steps'] = rng.choice([1, 2])
+    link['finish'] = rng.choice(['close', 'exhaust', 'abandon'])
+    link['spec']['raise_at'] = None
   return link
 
 
@@ -152,7 +179,7 @@ def _gen_node(rng, prefix, budget, depth, max_depth, n_shared):
   if rng.random() < 0.3:
     raise_at = rng.randrange(len(children) + 1)
   return {'id': nid, 'children': children, 'raise_at': raise_at,
-          'raise_kind': 1 if (raise_at is not None and rng.random() < 0.3) else 0}
+          'raise_kind': (rng.choice([1, 1, 2]) if (raise_at is not None and rng.random() < 0.4) else 0)}
 
 
 def make_plan(seed, index, tier, sub):
@@ -256,6 +283,7 @@ class Harness(object):
     self.nodes = {n: getattr(mod, 'node_' + n) for n in ALL_NODES}
     self.boom = mod.Boom
     self.abort = mod.Abort
+    self.frozen = mod.Frozen
     self.user_file = mod.__file__
     self.stats = {'nodes': 0, 'generated_nodes': 0, 'exc_crossings': 0, 'caught': 0,
                   'fallback_nodes': 0, 'to_graph_failed': 0, 'status_checks': 0,
@@ -355,6 +383,33 @@ class Harness(object):
   def pick(self, link):
     return self.nodes[link['fn']]
 
+  def ours(self, e):
+    """Is this an exception the workload raised itself?  A Frozen exception
+    may legitimately arrive as the AttributeError its rejected attribute
+    assignment produced (malt annotates exceptions on their way up)."""
+    if isinstance(e, (self.boom, self.abort, self.frozen)):
+      return True
+    seen = 0
+    c = e
+    while c is not None and seen < 6:
+      if isinstance(c, self.frozen):
+        return True
+      c = c.__context__ or c.__cause__
+      seen += 1
+    return False
+
+  def ours_now(self):
+    return self.ours(sys.exc_info()[1])
+
+  def gen_step(self, spec, k):
+    st = self._st()
+    self.cur_ctx(st)
+    st.trace.append('~%s.%d' % (spec['id'], k))
+
+  def _raise(self, spec):
+    k = spec.get('raise_kind')
+    raise (self.abort if k == 1 else self.frozen if k == 2 else self.boom)(spec['id'])
+
   def lam_body(self, spec):
     """Body of the lambda node: same protocol as the def nodes, driven from
     harness code (a lambda cannot hold statements).  Plain children are native
@@ -363,12 +418,12 @@ class Harness(object):
     i = 0
     for link in spec['children']:
       if spec['raise_at'] == i:
-        raise (self.abort if spec.get('raise_kind') == 1 else self.boom)(spec['id'])
+        self._raise(spec)
       self.call_child(spec, link)
       self.mid(spec)
       i += 1
     if spec['raise_at'] == i:
-      raise (self.abort if spec.get('raise_kind') == 1 else self.boom)(spec['id'])
+      self._raise(spec)
     self.leave(spec)
     return spec['id']
 
@@ -411,7 +466,7 @@ class Harness(object):
         raise
       st.trace.append('!%s' % link['spec']['id'])
       self.stats['exc_crossings'] += 1
-      if not isinstance(e, (self.boom, self.abort)):
+      if not self.ours(e):
         self.viol('S5', 'foreign exception %s crossed the boundary of %s child %s: %s'
                   % (type(e).__name__, link['kind'], link['spec']['id'], str(e)[:120]),
                   sig='foreign-%s' % type(e).__name__)
@@ -437,6 +492,8 @@ class Harness(object):
                           user_requested=link['ur'])(fn)(spec)
     if kind == 'dnc':
       return malt.experimental.do_not_convert(fn)(spec)
+    if kind == 'dnc_gen':
+      return self._run_generator(st, link)
     if kind == 'unspec':
       return api.call_with_unspecified_conversion_status(fn)(spec)
     if kind == 'with':
@@ -463,6 +520,38 @@ class Harness(object):
         return None
       return g(spec)
     raise ValueError(kind)
+
+  def _run_generator(self, st, link):
+    """A generator function wrapped by do_not_convert: creating it and every
+    step are calls into the wrapper / its result; the status object must be
+    the same after each of them, also while the generator is suspended."""
+    spec = link['spec']
+    c0 = self.cur_ctx(st)
+    it = self.malt.experimental.do_not_convert(self.mod.gen_node)(spec)
+    self._same_ctx(st, c0, link, 'creating the generator')
+    for k in range(link.get('steps', 1)):
+      next(it)
+      self._same_ctx(st, c0, link, 'step %d of the generator' % (k + 1))
+      self.stats['generator_steps'] = self.stats.get('generator_steps', 0) + 1
+      # other regions are entered and left while the generator is suspended
+      for child in spec['children']:
+        self.call_child(None, dict(child, catch=True))
+        self._same_ctx(st, c0, link, 'a region entered while the generator was suspended')
+    fin = link.get('finish')
+    if fin == 'close':
+      it.close()
+    elif fin == 'exhaust':
+      for _ in it:
+        pass
+    self._same_ctx(st, c0, link, 'finishing the generator (%s)' % fin)
+
+  def _same_ctx(self, st, c0, link, what):
+    c = self.cur_ctx(st)
+    self.stats['restore_checks'] += 1
+    if c is not c0:
+      self.viol('S1', 'after %s (child %s): context is %s, was %s before'
+                % (what, link['spec']['id'], _status_name(c), _status_name(c0)),
+                sig='not-restored-generator')
 
   def _ctx_for(self, st, link):
     c = link['ctx']
@@ -504,9 +593,9 @@ def expected_status(link, pexp, generated, H):
     return inherit
   if kind == 'convert':
     if pexp == 'DISABLED':
-      # the wrapper must not convert here (C13's policy); if it did anyway the
-      # nested user-requested region overrides and C16 promises nothing
-      return None if generated else 'DISABLED'
+      # convert() respects a disabled context: the function runs unconverted and
+      # "inside a do_not_convert region it reports disabled" keeps holding
+      return 'DISABLED'
     # In fault-free runs nothing can legitimately stop the conversion the user
     # asked for (the node functions are convertible, not allow-listed): the
     # node must then report ENABLED whether or not it is seen running generated
